@@ -4,8 +4,9 @@ ANALYSIS-ERROR is a candidate false alarm (to be judged against the property tex
 import os, shutil, subprocess, sys, tempfile
 PY = "/venv/bin/python"
 k = sys.argv[1]
+WHICH = sys.argv[2] if len(sys.argv) > 2 else "P"      # P: property-preserving (P.check.py) | D: disguised defect (D.demo.py)
 root = os.path.join(os.environ.get("SEED_ROOT", "/tmp/seed7"), k, "SEED")
-patch = os.path.join(root, "P.patch.diff")
+patch = os.path.join(root, WHICH + ".patch.diff")
 tmp = tempfile.mkdtemp(prefix="pysnark-prop-")
 try:
     p1 = subprocess.Popen(["git", "-C", "/repo", "archive", "HEAD"], stdout=subprocess.PIPE)
@@ -16,13 +17,13 @@ try:
         print(k, "PATCH DOES NOT APPLY", r.stderr[-200:]); sys.exit(3)
     env = dict(os.environ, PYTHONPATH=tmp); env.pop("PYSNARK_BACKEND", None)
     r = subprocess.run([PY, "-m", "pytest", "-q", "-p", "no:cacheprovider", "-x"], cwd=tmp, env=env, capture_output=True, text=True)
-    print(k, "tests:", r.stdout.strip().splitlines()[-1][:80] if r.stdout.strip() else "?")
-    chk = os.path.join(root, "P.check.py")
+    print(k, WHICH, "tests:", r.stdout.strip().splitlines()[-1][:80] if r.stdout.strip() else "?")
+    chk = os.path.join(root, "P.check.py" if WHICH == "P" else WHICH + ".demo.py")
     if os.path.exists(chk):
         wd = os.path.join(tmp, "_chk"); os.makedirs(wd)
         try:
             r = subprocess.run([PY, chk], cwd=wd, env=env, capture_output=True, text=True, timeout=1200)
-            print(k, "P.check exit", r.returncode, (r.stdout + r.stderr).strip().splitlines()[-1][:140] if (r.stdout + r.stderr).strip() else "")
+            print(k, WHICH, "own program exit", r.returncode, (r.stdout + r.stderr).strip().splitlines()[-1][:140] if (r.stdout + r.stderr).strip() else "")
         except subprocess.TimeoutExpired:
             print(k, "P.check TIMEOUT")
     env = dict(os.environ, PYSNARK_SA_EVIDENCE_DIR=os.path.join(tmp, "ev"))
@@ -35,6 +36,6 @@ try:
             lines = [l.strip()[:300] for l in out.splitlines() if l.strip().startswith("rule=") or "ANALYSIS-ERROR" in l or l.strip().startswith("term")]
             print("   %s exit %d: %s" % (p, pr.returncode, " || ".join(lines[:6])))
     if clean:
-        print(k, "all 20 checks silent")
+        print(k, WHICH, "all 20 checks silent")
 finally:
     shutil.rmtree(tmp, ignore_errors=True)
